@@ -172,7 +172,11 @@ def eval_traces(ctx, fams=("ranges", "layouts")):
     jobs = []
     for fam in fams:
         for k, c in enumerate(family(ctx, fam)):
-            jobs.append({"kcfg": c, "xs": xs_for(c), "variant": k})
+            job = {"kcfg": c, "xs": xs_for(c), "variant": k}
+            if k % 3 == 1 and len(c["vars"]) >= 2:
+                # the calibrated parameters are arguments of different models that all have the same (short) name
+                job["extra"] = {"collide": True}
+            jobs.append(job)
     return check.pmap(calib.eval_job, jobs, chunksize=4)
 
 
@@ -230,6 +234,8 @@ def session_jobs(ctx):
         j = copy.deepcopy(base)
         j["kcfg"]["vars"] = vars_
         j.update({"variant": 50 + k, "repeat": 2, "islands": 1, "algo": "sade"})
+        if len(vars_) >= 2 and k % 2 == 0:
+            j["extra"] = dict(j.get("extra") or {}, collide=True)
         jobs.append(j)
     return jobs
 
